@@ -745,8 +745,15 @@ func (st *SymTable) AnalyzeBlock(bound, free, global StringSet) {
 		newbound.Update(bound)
 	}
 
-	for name, v := range st.Symbols {
-		st.AnalyzeName(scopes, name, v, bound, local, free, global)
+	// Analyze the names in a fixed order: a rejected declaration
+	// reports the first offender, which must not depend on map order
+	names := make([]string, 0, len(st.Symbols))
+	for name := range st.Symbols {
+		names = append(names, name)
+	}
+	sort.Strings(names)
+	for _, name := range names {
+		st.AnalyzeName(scopes, name, st.Symbols[name], bound, local, free, global)
 	}
 
 	/* Populate global and bound sets to be passed to children. */
